@@ -1422,8 +1422,8 @@ SPECS["C05"]["level_text"] += (' Props/C05R (track rdrworld): the item C05H left
     'at or above the end of every existing slice of its chunk, the held slice included).')
 # ---- track rdrworld: world-level StreamChunker / StreamReader (Model/StreamWorld.lean): placement of every slice handed out + live set
 SPECS["C05"]["families"] += [
-    dict(name="chunkerw", quick=240, thorough=16000, search=2000, shards=dict(quick=2, thorough=16)),
-    dict(name="readerw", quick=150, thorough=8000, search=1000, shards=dict(quick=6, thorough=16)),
+    dict(name="chunkerw", quick=240, thorough=3200, search=2000, shards=dict(quick=2, thorough=16)),
+    dict(name="readerw", quick=150, thorough=1600, search=1000, shards=dict(quick=6, thorough=16)),
 ]
 SPECS["C05"]["lean_modules"] += ["Woodpile.Props.C05S"]
 SPECS["C05"]["theorems"] += [
